@@ -62,6 +62,7 @@ Vals(o) ==
           V("fd", 2),      \* exactly the numeric-tower overrides
           V("fd", 3),      \* FrozenDict({float: int})  -- conflicts with the tower
           V("fd", 4),      \* FrozenDict({A: B} + tower)
+          V("fd", 5),      \* {float: float | int (as the tower), complex: int}  -- complex conflicts with the tower
           V("dict", 1)}    \* a plain dict: unhashable, not a FrozenDict
     [] o = "claw_skip_package_names" ->
          {V("tuple", 0), V("tuple", 1), V("fset", 1), V("list", 1), V("tuple", 7)}
@@ -93,7 +94,7 @@ Defaulted(kw) ==
      THEN (IF kw["violation_type"].ty # "none" THEN kw["violation_type"] ELSE V("dflt", 0))
      ELSE kw[o]]
 
-TowerConflict(kw) == kw["is_pep484_tower"] = V("bool", 1) /\ kw["hint_overrides"] = V("fd", 3)
+TowerConflict(kw) == kw["is_pep484_tower"] = V("bool", 1) /\ kw["hint_overrides"] \in {V("fd", 3), V("fd", 5)}
 \* sanify_conf_kwargs: merge the tower into hint_overrides
 MergeTower(ov) == CASE ov = V("fd", 0) -> V("fd", 2) [] ov = V("fd", 1) -> V("fd", 4) [] OTHER -> ov
 Sanified(kw) ==
